@@ -16,6 +16,9 @@ GEN = ["reservoir"]
 # grids: 1 = A, 2 = B (same length as A), 3 = C (other length); schedules 0/1 belong to grids A/B, 2 to C
 GRIDS = {1: np.linspace(0, 2.0, 9) ** 2 / 2.0, 2: np.linspace(0, 3.0, 9), 3: np.linspace(0, 1.0, 6)}
 OPS_BASE = [[0, 1], [0, 2], [0, 3], [2], [3], [4]]
+# a simulate call that raises before completing: [5, g] = simulate(grid g, <something inadmissible>): for the single-phase class a
+# frac-face schedule of the wrong length (ValueError), for the ideal class the time grid as a plain list (no .shape: AttributeError)
+OPS_REJ = [[5, 2], [5, 3]]
 OPS_SCHED = [[1, 1, 0], [1, 3, 2]]
 QUERY = np.array([-1.0, 0.0, 0.05, 0.4, 0.9, 1.7, 2.5, 10.0])
 
@@ -65,6 +68,16 @@ class Env:
             b = bufs.setdefault((kind, len(src)), np.empty(len(src)))
             b[:] = src
             return b
+        if op[0] == 5:
+            from bluebonnet.flow import SinglePhaseReservoir
+            try:
+                if isinstance(obj, SinglePhaseReservoir):
+                    obj.simulate(GRIDS[op[1]].copy(), np.full(len(GRIDS[op[1]]) + 2, 1234.0))
+                else:
+                    obj.simulate([float(x) for x in GRIDS[op[1]]])
+            except (ValueError, AttributeError):
+                return "rejected"
+            return "not rejected"
         if op[0] == 0:
             return obj.simulate(arr(GRIDS[op[1]], "t"))
         if op[0] == 1:
@@ -154,7 +167,9 @@ def compare(env, h, sym, outs, state):
     n = len(h)
     for k in range(n):
         s, got = sym[k], outs[k]
-        if s[0] == 0:
+        if s[0] == 8:
+            ok = isinstance(got, str) and got == "rejected"
+        elif s[0] == 0:
             ok = got is None
         elif s[0] == 9:
             ok = isinstance(got, str) and got == "RuntimeError"
@@ -227,8 +242,8 @@ def run(ctx):
         fp = FlowProperties({k: v.copy() for k, v in tb.items()}, 8000.0)
     scheds = {0: np.linspace(6000.0, 1500.0, 9), 1: np.linspace(5000.0, 3000.0, 9), 2: np.linspace(7000.0, 500.0, 6)}
     total = 0
-    for cls, ops, maxlen in ((IdealReservoir, OPS_BASE, 4 if ctx.quick else 5),
-                             (SinglePhaseReservoir, OPS_BASE + OPS_SCHED, 3 if ctx.quick else 4)):
+    for cls, ops, maxlen in ((IdealReservoir, OPS_BASE + OPS_REJ[:1], 4 if ctx.quick else 5),
+                             (SinglePhaseReservoir, OPS_BASE + OPS_SCHED + OPS_REJ, 3 if ctx.quick else 4)):
         env = Env(cls, fp, 8, 1000.0, 8000.0, scheds)
         hs = histories(ctx, ops, maxlen, 150 if ctx.quick else 3000, rng, 8 if ctx.quick else 12)
         syms = sym_histories(ctx, hs)
@@ -284,7 +299,7 @@ def run(ctx):
                         "rf, rfd, interpolator} (+ simulate with schedules for the single-phase class), plus random longer histories; "
                         "for each, the Coq state machine (symbolic instance, vm_compute) says which fresh-object computation each "
                         "output and the final time/field/cache must equal; arrays are compared for exact equality",
-                   op_codes="[0,g] simulate(grid g); [1,g,s] simulate(grid g, schedule s); [2] rf; [3] rfd; [4] interpolator")
+                   op_codes="[0,g] simulate(grid g); [1,g,s] simulate(grid g, schedule s); [2] rf; [3] rfd; [4] interpolator; [5,g] simulate(grid g, inadmissible argument) - raises, must change nothing")
 
 
 def replay(payload):
